@@ -2,33 +2,35 @@
 C02: `String()` is one syntactically valid RFC 8259 JSON text, and an independent strict decoder
 recovers exactly the container's content from it.
 
-The only assumption is `FmtContract` (behaviour of Go's shortest float formatting, stated about
-the executable `serF`).
+No assumption about floating point is left: `FmtContract` (the serialiser's shortest formatting is read back as
+the identical float64) is the theorem `fmtContract_holds` (`Lemmas/FmtContractHolds.lean`: seventeen digits
+always suffice; the 'e' and 'f' layouts preserve the value).
 -/
 import Anytype.Lemmas.StrictRoundTrip
 import Anytype.Lemmas.ContractOne
+import Anytype.Lemmas.FmtContractHolds
 namespace Anytype
 
 /-- the strict decoder reads the serialisation of every well-formed value tree back exactly
 (same nesting, order, lengths, keys, strings, booleans, nulls; ints as the same int, floats as the
 identical float64) and consumes the whole text -/
-theorem C02_decode (hf : FmtContract) (v : JVal) (hw : v.WF) :
+theorem C02_decode (v : JVal) (hw : v.WF) :
     Strict.decode (ser v) = .ok v [] := by
   unfold Strict.decode
-  rw [(Strict.ser_goodHead hf v hw).skipWs]
-  have := Strict.value_ser hf v hw ((ser v).length + 1) [] (by omega) (Or.inl rfl)
+  rw [(Strict.ser_goodHead fmtContract_holds v hw).skipWs]
+  have := Strict.value_ser fmtContract_holds v hw ((ser v).length + 1) [] (by omega) (Or.inl rfl)
   rw [List.append_nil] at this
   rw [this]; rfl
 
-theorem C02_valid_and_faithful (hf : FmtContract) (v : JVal) (hw : v.WF) (_hc : v.isContainer = true) :
+theorem C02_valid_and_faithful (v : JVal) (hw : v.WF) (_hc : v.isContainer = true) :
     Strict.decodeStrict (ser v) = some v := by
   unfold Strict.decodeStrict
-  rw [C02_decode hf v hw]
+  rw [C02_decode v hw]
 
-theorem C02_valid (hf : FmtContract) (v : JVal) (hw : v.WF) (_hc : v.isContainer = true) :
+theorem C02_valid (v : JVal) (hw : v.WF) (_hc : v.isContainer = true) :
     Strict.isStrictJSON (ser v) = true := by
   unfold Strict.isStrictJSON
-  rw [C02_decode hf v hw]
+  rw [C02_decode v hw]
 
 /-! ### non-vacuity: concrete nested values in the domain (defined in `Lemmas/WF.lean`) -/
 
@@ -44,7 +46,8 @@ end Anytype
 
 /-! ### the float-formatting hypothesis is a single statement
 
-`FmtContract` (the only unproved assumption of C01, C02, C04's cut-serial corollary and C16) is
+`FmtContract` (until `Lemmas/FmtContractHolds.lean` the only unproved assumption of C01, C02, C04's
+cut-serial corollary and C16; now the theorem `fmtContract_holds`) is
 equivalent to its field `strict` alone: a strict RFC 8259 reader takes the text `serF x` of every
 finite `x`, as a whole, for the identical float64. `parse_back` (Go's `ParseFloat` reads it back)
 follows because the parser model and the strict reader agree on number literals (`C03_numbers`). -/
@@ -56,14 +59,17 @@ theorem C02_contract_one_field :
   FmtContract.iff_strict
 
 open Anytype in
-/-- the round trip and the validity theorem under the single-statement hypothesis -/
-theorem C02_valid_and_faithful_one
-    (hs : ∀ x : F64, x.isFinite = true → Strict.number (serF x) = some (some (.float x), []))
-    (v : JVal) (hw : v.WF) (hc : v.isContainer = true) :
-    Strict.decodeStrict (ser v) = some v :=
-  C02_valid_and_faithful (FmtContract.of_strict hs) v hw hc
+/-- that single statement is a theorem: the serialiser's text of every finite float64 is, for a strict RFC 8259
+reader, a number denoting the identical float64 (seventeen significant digits always suffice; the 'e' and 'f'
+layouts and the appended ".0" preserve the value and keep the text a float) -/
+theorem C02_number_text_faithful (x : F64) (hf : x.isFinite = true) :
+    Strict.number (serF x) = some (some (.float x), []) ∧ F64.parseFloat (serF x) = some x :=
+  ⟨serF_strict x hf, serF_parse_back x hf⟩
+
+open Anytype in
+example : (⟨0x3ff199999999999a⟩ : F64).isFinite = true := by decide   -- 1.1: the hypothesis is satisfiable
 
 open Anytype in
 #print axioms C02_contract_one_field
 open Anytype in
-#print axioms C02_valid_and_faithful_one
+#print axioms C02_number_text_faithful
